@@ -219,7 +219,7 @@ def sysLine (m : MState) (line : String) : MState :=
   | "restart" :: fam =>
     let w := m.sys.w
     let w := { w with loaded := w.loaded.filter (fun o => !(fam.contains o)) }
-    let w := { w with configId := sampleConfigId w "/simul_efun.c" }
+    let w := sampleConfigId w "/simul_efun.c"
     ({ m with sys := { m.sys with w := w } }).emit s!"restarted {w.configId}"
   | "reload" :: top :: fam =>
     if !m.cleaned then m.emit "badcase reload-before-clean" else
